@@ -5,10 +5,10 @@
 // observable behaviour violates the property.
 //
 // every output line starts with "R " (sanitizer reports share the stream).
-// case line:   lruset|lrumap|splayset|splaymulti  tok tok ...
+// case line:   lruset|lrumap|splayset|splaymulti[:variant]  tok tok ...   (variants: see below)
 //              exh|exhv <kind> <nkeys> <len>      (bounded-exhaustive: all histories of that length)
-// LRU tokens:  P,k[,v] T,k TI,k G,k GT,k E,k EI,k X,k S O C
-// splay tokens: I,k E,k X,k F,k C T
+// LRU tokens:  P,k[,v] PG,k,j (put(k, get(j)), map only) T,k TI,k G,k GT,k E,k EI,k X,k S O C
+// splay tokens: I,k E,k EN,k (find + erase(const Node*)) X,k F,k C T
 #include <tlx/container/lru_cache.hpp>
 #include <tlx/container/splay_tree.hpp>
 #include "ledger.hpp"
@@ -23,6 +23,7 @@
 #include <set>
 #include <sstream>
 #include <string>
+#include <type_traits>
 #include <vector>
 
 using verif::AllocLedger;
@@ -57,37 +58,140 @@ struct Sink {
     void word(const char* w) { if (text) s += w; for (const char* p = w; *p; ++p) num(*p); }
 };
 
+// ------------------------------------------------------------------------------------------ variants
+// Every case line names a variant after a colon (kind:variant), chosen per case from the seed by the check.
+// All variants are compared through the same reference and the same extracted model.
+//
+// stateful allocator: counts into the statistics object it was constructed with; a default-constructed copy
+// (what a container uses when it drops the allocator argument it was given) counts into g_orphan.
+struct TagStats { long allocs = 0, frees = 0; };
+static TagStats g_orphan;
+template <typename T>
+struct TagAlloc {
+    using value_type = T;
+    TagStats* st;
+    TagAlloc() noexcept : st(nullptr) {}
+    explicit TagAlloc(TagStats* s) noexcept : st(s) {}
+    template <typename U> TagAlloc(const TagAlloc<U>& o) noexcept : st(o.st) {}
+    T* allocate(size_t n) { ++(st ? st : &g_orphan)->allocs; return std::allocator<T>().allocate(n); }
+    void deallocate(T* p, size_t n) { ++(st ? st : &g_orphan)->frees; std::allocator<T>().deallocate(p, n); }
+    template <typename U> bool operator==(const TagAlloc<U>& o) const { return st == o.st; }
+    template <typename U> bool operator!=(const TagAlloc<U>& o) const { return st != o.st; }
+};
+
+// run-time direction comparator: default-constructed = ascending; the G variant passes DirCmp{true} through the
+// SplayTree(Compare, Allocator) constructor and mirrors the keys, so a dropped comparator changes the answers
+struct DirCmp {
+    bool rev = false;
+    DirCmp() {}
+    explicit DirCmp(bool r) : rev(r) {}
+    template <typename A, typename B> bool operator()(const A& a, const B& b) const { return rev ? (b < a) : (a < b); }
+};
+
+static const std::string SKEY_PREFIX = "a-heap-owning-key-longer-than-the-sso-buffer-";
+static std::string skey(int k) { return SKEY_PREFIX + std::to_string(k); }
+static int unskey(const std::string& s) { return atoi(s.c_str() + SKEY_PREFIX.size()); }
+
+// per-case ledger over all the allocation / lifetime books
+struct Books {
+    AllocLedger& AL = AllocLedger::get(); Ledger& TL = Ledger::get();
+    long a0 = AL.allocs, f0 = AL.frees, e0 = AL.errors, te0 = TL.errors, oa0 = g_orphan.allocs, of0 = g_orphan.frees;
+    size_t live0 = TL.live.size();
+    TagStats tag; bool expect_tag = false, used = false;
+    bool ok() const {
+        return AL.errors == e0 && (AL.allocs - a0) == (AL.frees - f0) && TL.errors == te0 && TL.live.size() == live0 &&
+               g_orphan.allocs == oa0 && g_orphan.frees == of0 && tag.allocs == tag.frees &&
+               (!expect_tag || !used || tag.allocs > 0);
+    }
+};
+
 // ------------------------------------------------------------------------------------------ LRU
 struct RefLru {   // reference LRU list: front = most recently put or touched
     std::list<std::pair<int, int> > l;
     std::list<std::pair<int, int> >::iterator find(int k) { return std::find_if(l.begin(), l.end(), [k](const std::pair<int, int>& e) { return e.first == k; }); }
 };
 
-template <bool IsMap> struct LruImpl;
-template <> struct LruImpl<true> {
+// base: int -> int, counting allocator, default constructor
+struct MapBase {
+    static const bool is_map = true;
     tlx::LruCacheMap<int, int, CountingAlloc<std::pair<int, int> > > c;
+    explicit MapBase(Books&) {}
+    static int K(int k) { return k; }
     void put(int k, int v) { c.put(k, v); }
+    void put_alias(int k, int j) { c.put(k, c.get(j)); }      // the value argument is a reference into the cache
     int get(int k) { return c.get(k); }
     int get_touch(int k) { return c.get_touch(k); }
     std::pair<int, int> pop() { return c.pop(); }
 };
-template <> struct LruImpl<false> {
+// S: std::string -> std::string (heap-owning key and value), every template argument and the constructor argument defaulted
+struct MapS {
+    static const bool is_map = true;
+    tlx::LruCacheMap<std::string, std::string> c;
+    explicit MapS(Books&) {}
+    static std::string K(int k) { return skey(k); }
+    void put(int k, int v) { c.put(skey(k), skey(v)); }
+    void put_alias(int k, int j) { c.put(skey(k), c.get(skey(j))); }
+    int get(int k) { return unskey(c.get(skey(k))); }
+    int get_touch(int k) { return unskey(c.get_touch(skey(k))); }
+    std::pair<int, int> pop() { auto p = c.pop(); return std::make_pair(unskey(p.first), unskey(p.second)); }
+};
+// T: int -> Tracked (ledger value type), explicit stateful allocator passed to the constructor
+struct MapT {
+    static const bool is_map = true;
+    typedef tlx::LruCacheMap<int, Tracked, TagAlloc<std::pair<int, Tracked> > > C;
+    C c;
+    explicit MapT(Books& b) : c(TagAlloc<std::pair<int, Tracked> >(&b.tag)) { b.expect_tag = true; }
+    static int K(int k) { return k; }
+    void put(int k, int v) { c.put(k, Tracked(v)); }
+    void put_alias(int k, int j) { c.put(k, c.get(j)); }
+    int get(int k) { return c.get(k).get(); }
+    int get_touch(int k) { return c.get_touch(k).get(); }
+    std::pair<int, int> pop() { C::KeyValuePair p = c.pop(); return std::make_pair(p.first, p.second.get()); }
+};
+struct SetBase {
+    static const bool is_map = false;
     tlx::LruCacheSet<int, CountingAlloc<int> > c;
+    explicit SetBase(Books&) {}
+    static int K(int k) { return k; }
     void put(int k, int) { c.put(k); }
+    void put_alias(int, int) {}
+    int get(int) { return 0; }
+    int get_touch(int) { return 0; }
+    std::pair<int, int> pop() { return std::make_pair(c.pop(), 0); }
+};
+struct SetS {   // std::string keys, default allocator, default constructor argument
+    static const bool is_map = false;
+    tlx::LruCacheSet<std::string> c;
+    explicit SetS(Books&) {}
+    static std::string K(int k) { return skey(k); }
+    void put(int k, int) { c.put(skey(k)); }
+    void put_alias(int, int) {}
+    int get(int) { return 0; }
+    int get_touch(int) { return 0; }
+    std::pair<int, int> pop() { return std::make_pair(unskey(c.pop()), 0); }
+};
+struct SetA {   // explicit stateful allocator passed to the constructor
+    static const bool is_map = false;
+    tlx::LruCacheSet<int, TagAlloc<int> > c;
+    explicit SetA(Books& b) : c(TagAlloc<int>(&b.tag)) { b.expect_tag = true; }
+    static int K(int k) { return k; }
+    void put(int k, int) { c.put(k); }
+    void put_alias(int, int) {}
     int get(int) { return 0; }
     int get_touch(int) { return 0; }
     std::pair<int, int> pop() { return std::make_pair(c.pop(), 0); }
 };
 
 // returns false when the history is invalid (pop on empty reference)
-template <bool IsMap>
+template <typename Impl>
 static bool run_lru(const std::vector<Op>& ops, Sink& out, int& propfail) {
-    AllocLedger& AL = AllocLedger::get();
-    long a0 = AL.allocs, f0 = AL.frees, e0 = AL.errors;
+    const bool IsMap = Impl::is_map;
+    Books B;
     propfail = -1;
     bool valid = true;
     {
-        LruImpl<IsMap> I; RefLru R;
+        Impl I(B); RefLru R;
+        const auto& CI = I.c;     // exists() and size() are const members: call them through a const reference
         int idx = 0;
         for (const Op& o : ops) {
             if (idx) out.sep(' ');
@@ -97,14 +201,26 @@ static bool run_lru(const std::vector<Op>& ops, Sink& out, int& propfail) {
             const std::string& n = o.name;
             if (n == "P") {
                 int v = IsMap ? o.v : 0;
-                I.put(o.k, v); out.res('u');
+                I.put(o.k, v); out.res('u'); B.used = true;
                 if (present) R.l.erase(it);
                 R.l.push_front(std::make_pair(o.k, v));
+            } else if (n == "PG") {
+                // put(k, get(j)): the value is passed as a reference to the stored value of key j (o.v = j)
+                auto jt = R.find(o.v);
+                bool threw = false;
+                try { I.put_alias(o.k, o.v); } catch (const std::range_error&) { threw = true; }
+                out.res(threw ? '!' : 'u');
+                if (threw != (jt == R.l.end())) fail();
+                if (jt != R.l.end()) {
+                    int v = jt->second;
+                    if (present) R.l.erase(it);
+                    R.l.push_front(std::make_pair(o.k, v));
+                }
             } else if (n == "T" || n == "E" || n == "G" || n == "GT") {
                 bool threw = false; int val = 0;
                 try {
-                    if (n == "T") I.c.touch(o.k);
-                    else if (n == "E") I.c.erase(o.k);
+                    if (n == "T") I.c.touch(Impl::K(o.k));
+                    else if (n == "E") I.c.erase(Impl::K(o.k));
                     else if (n == "G") val = I.get(o.k);
                     else val = I.get_touch(o.k);
                 } catch (const std::range_error&) { threw = true; }
@@ -116,14 +232,14 @@ static bool run_lru(const std::vector<Op>& ops, Sink& out, int& propfail) {
                     else if (n == "E") R.l.erase(it);
                 }
             } else if (n == "TI" || n == "EI") {
-                bool b = n == "TI" ? I.c.touch_if_exists(o.k) : I.c.erase_if_exists(o.k);
+                bool b = n == "TI" ? I.c.touch_if_exists(Impl::K(o.k)) : I.c.erase_if_exists(Impl::K(o.k));
                 out.res('b', b);
                 if (b != present) fail();
                 if (present) { if (n == "TI") R.l.splice(R.l.begin(), R.l, it); else R.l.erase(it); }
             } else if (n == "X") {
-                bool b = I.c.exists(o.k); out.res('b', b); if (b != present) fail();
+                bool b = CI.exists(Impl::K(o.k)); out.res('b', b); if (b != present) fail();
             } else if (n == "S") {
-                size_t s = I.c.size(); out.res('s', (long)s); if (s != R.l.size()) fail();
+                size_t s = CI.size(); out.res('s', (long)s); if (s != R.l.size()) fail();
             } else if (n == "O") {
                 if (R.l.empty()) { valid = false; out.res('?'); break; }
                 std::pair<int, int> p = I.pop(); out.res('p', p.first, p.second);
@@ -132,7 +248,7 @@ static bool run_lru(const std::vector<Op>& ops, Sink& out, int& propfail) {
             } else if (n == "C") {
                 I.c.clear(); out.res('u'); R.l.clear();
             } else { out.res('?'); }
-            if (I.c.size() != R.l.size()) fail();
+            if (CI.size() != R.l.size()) fail();
             if (propfail >= 0) break;   // implementation and reference have diverged: stop this history
             ++idx;
         }
@@ -148,36 +264,128 @@ static bool run_lru(const std::vector<Op>& ops, Sink& out, int& propfail) {
         }
         if (valid && !R.l.empty() && propfail < 0) propfail = idx;
     }
-    bool ledger_ok = AL.errors == e0 && (AL.allocs - a0) == (AL.frees - f0);
+    bool ledger_ok = B.ok();
     out.sep('|'); out.word(ledger_ok ? "ok" : "bad");
     if (!ledger_ok && propfail < 0) propfail = (int)ops.size();
     return valid;
 }
 
 // ------------------------------------------------------------------------------------------ SplayTree
-template <bool Dup>
+// base: Tracked keys, std::less, counting allocator, default constructor
+template <bool Dup> struct TreeBase {
+    typedef tlx::SplayTree<Tracked, std::less<Tracked>, Dup, CountingAlloc<Tracked> > T;
+    T t;
+    explicit TreeBase(Books&) {}
+    static Tracked K(int k) { return Tracked(k); }
+    static int U(const Tracked& k) { return k.get(); }
+};
+// G: the splay_set / splay_multiset aliases, run-time comparator and stateful allocator through the
+// SplayTree(Compare, Allocator) constructor; descending order over mirrored keys == ascending order over the keys
+template <bool Dup> struct TreeG {
+    typedef typename std::conditional<Dup, tlx::splay_multiset<int, DirCmp, TagAlloc<int> >, tlx::splay_set<int, DirCmp, TagAlloc<int> > >::type T;
+    T t;
+    explicit TreeG(Books& b) : t(DirCmp(true), TagAlloc<int>(&b.tag)) { b.expect_tag = true; }
+    static int K(int k) { return 1000 - k; }
+    static int U(int k) { return 1000 - k; }
+};
+// D: every template argument defaulted (std::less<int>, std::allocator<int>), SplayTree(Allocator) with the default argument
+template <bool Dup> struct TreeD {
+    typedef typename std::conditional<Dup, tlx::splay_multiset<int>, tlx::splay_set<int> >::type T;
+    T t;
+    explicit TreeD(Books&) {}
+    static int K(int k) { return k; }
+    static int U(int k) { return k; }
+};
+// A: stateful allocator through the one-argument constructor SplayTree(Allocator)
+template <bool Dup> struct TreeA {
+    typedef tlx::SplayTree<int, std::less<int>, Dup, TagAlloc<int> > T;
+    T t;
+    explicit TreeA(Books& b) : t(TagAlloc<int>(&b.tag)) { b.expect_tag = true; }
+    static int K(int k) { return k; }
+    static int U(int k) { return k; }
+};
+// F: the free functions splay / splay_insert / splay_erase / splay_traverse_* / splay_check used directly on a
+// user-defined node type, with a lookup key type (long) different from the node's key type (int) and a
+// heterogeneous comparator; the member functions repeat the text of class SplayTree
+template <bool Dup> struct FreeTree {
+    struct Node { Node *left = nullptr, *right = nullptr; int key; explicit Node(int k) : key(k) {} };
+    Node* root_ = nullptr; size_t size_ = 0; DirCmp cmp_;
+    ~FreeTree() { clear(); }
+    bool insert(long k) {
+        if (root_ != nullptr) {
+            root_ = tlx::splay(k, root_, cmp_);
+            if (!Dup && !cmp_(k, root_->key) && !cmp_(root_->key, k)) return false;
+        }
+        Node* nn = new Node((int)k);
+        root_ = tlx::splay_insert(nn, root_, cmp_);
+        size_++;
+        return true;
+    }
+    bool erase(long k) {
+        Node* out = tlx::splay_erase(k, root_, cmp_);
+        if (!out) return false;
+        delete out; size_--;
+        return true;
+    }
+    bool erase(const Node* n) { return erase((long)n->key); }
+    void clear() { tlx::splay_traverse_postorder([this](Node* n) { delete n; size_--; }, root_); root_ = nullptr; }
+    bool exists(long k) {
+        if (root_ == nullptr) return false;
+        root_ = tlx::splay(k, root_, cmp_);
+        return !cmp_(root_->key, k) && !cmp_(k, root_->key);
+    }
+    Node* find(long k) { return (root_ = tlx::splay(k, root_, cmp_)); }
+    size_t size() const { return size_; }
+    bool empty() const { return size_ == 0; }
+    bool check() const {
+        const Node *tmin = nullptr, *tmax = nullptr;
+        return tlx::splay_check(static_cast<const Node*>(root_), cmp_) &&
+               tlx::splay_check(static_cast<const Node*>(root_), tmin, tmax, cmp_);
+    }
+    template <typename Functor> void traverse_preorder(const Functor& f) const {
+        tlx::splay_traverse_preorder([&f](const Node* n) { f(n->key); }, static_cast<const Node*>(root_));
+    }
+};
+template <bool Dup> struct TreeF {
+    typedef FreeTree<Dup> T;
+    T t;
+    explicit TreeF(Books&) {}
+    static long K(int k) { return k; }
+    static int U(int k) { return k; }
+};
+
+template <bool Dup, typename V>
 static void run_splay(const std::vector<Op>& ops, Sink& out, int& propfail) {
-    AllocLedger& AL = AllocLedger::get(); Ledger& TL = Ledger::get();
-    long a0 = AL.allocs, f0 = AL.frees, e0 = AL.errors, te0 = TL.errors;
-    size_t live0 = TL.live.size();
+    Books B;
     propfail = -1;
     {
-        tlx::SplayTree<Tracked, std::less<Tracked>, Dup, CountingAlloc<Tracked> > T;
+        V holder(B);
+        typename V::T& T = holder.t;
+        const typename V::T& CT = T;    // size(), empty(), check(), traverse_preorder() are const members
         std::multiset<int> R;
         int idx = 0;
         for (const Op& o : ops) {
             if (idx) out.sep(' ');
             auto fail = [&]() { if (propfail < 0) propfail = idx; };
             const std::string& n = o.name;
-            Tracked key(o.k);
+            auto key = V::K(o.k);
             size_t cnt = R.count(o.k);
             if (n == "I") {
-                bool b = T.insert(key); out.res('b', b);
+                bool b = T.insert(key); out.res('b', b); B.used = true;
                 bool exp = Dup || cnt == 0;
                 if (b != exp) fail();
                 if (exp) R.insert(o.k);
             } else if (n == "E") {
                 bool b = T.erase(key); out.res('b', b);
+                if (b != (cnt > 0)) fail();
+                if (cnt > 0) R.erase(R.find(o.k));
+            } else if (n == "EN") {
+                // erase(const Node*): look the node up with find(), erase through the node pointer (the key
+                // reference then aliases the node being removed); nothing is erased when the key is absent
+                auto* nd = T.find(key);
+                bool b = false;
+                if (nd != nullptr && V::U(nd->key) == o.k) b = T.erase(nd);
+                out.res('b', b);
                 if (b != (cnt > 0)) fail();
                 if (cnt > 0) R.erase(R.find(o.k));
             } else if (n == "X") {
@@ -187,7 +395,7 @@ static void run_splay(const std::vector<Op>& ops, Sink& out, int& propfail) {
                 auto* nd = T.find(key);
                 if (nd == nullptr) { out.res('f'); out.sep('-'); if (!R.empty()) fail(); }
                 else {
-                    int fk = nd->key.get(); out.res('f', fk);
+                    int fk = V::U(nd->key); out.res('f', fk);
                     if (R.count(fk) == 0) fail();
                     if (cnt > 0 && fk != o.k) fail();
                     if (cnt == 0) {   // must be a neighbour: no stored key strictly between fk and k
@@ -201,33 +409,46 @@ static void run_splay(const std::vector<Op>& ops, Sink& out, int& propfail) {
             } else if (n == "T") {
                 out.res('t');
             } else { out.res('?'); }
-            // after every operation: size(), empty() and the in-order traversal against the reference
-            size_t s = T.size();
+            // after every operation: size(), empty(), check() and the in-order traversal against the reference
+            size_t s = CT.size();
             out.sep('/'); out.num((long)s); if (out.text) out.s += std::to_string(s);
             out.sep('/');
             std::vector<int> io;
-            T.traverse_preorder([&io](const Tracked& k) { io.push_back(k.get()); });
+            CT.traverse_preorder([&io](const decltype(V::K(0))& k) { io.push_back(V::U(k)); });
             bool first = true;
             for (int k : io) { out.key(k, first); first = false; }
-            if (s != R.size() || T.empty() != R.empty() || io.size() != R.size() || !std::equal(io.begin(), io.end(), R.begin())) fail();
+            if (s != R.size() || CT.empty() != R.empty() || io.size() != R.size() || !std::equal(io.begin(), io.end(), R.begin())) fail();
+            if (!CT.check()) fail();
             if (propfail >= 0) break;   // diverged: stop this history
             ++idx;
         }
     }
-    bool ledger_ok = AL.errors == e0 && (AL.allocs - a0) == (AL.frees - f0) && TL.errors == te0 && TL.live.size() == live0;
+    bool ledger_ok = B.ok();
     out.sep('|'); out.word(ledger_ok ? "ok" : "bad");
     if (!ledger_ok && propfail < 0) propfail = (int)ops.size();
 }
 
-static bool run_kind(const std::string& kind, const std::vector<Op>& ops, Sink& out, int& pf) {
-    if (kind == "lrumap") return run_lru<true>(ops, out, pf);
-    if (kind == "lruset") return run_lru<false>(ops, out, pf);
-    if (kind == "splayset") { run_splay<false>(ops, out, pf); return true; }
-    if (kind == "splaymulti") { run_splay<true>(ops, out, pf); return true; }
+template <bool Dup>
+static void run_splay_variant(const std::string& var, const std::vector<Op>& ops, Sink& out, int& pf) {
+    if (var == "G") run_splay<Dup, TreeG<Dup> >(ops, out, pf);
+    else if (var == "D") run_splay<Dup, TreeD<Dup> >(ops, out, pf);
+    else if (var == "A") run_splay<Dup, TreeA<Dup> >(ops, out, pf);
+    else if (var == "F") run_splay<Dup, TreeF<Dup> >(ops, out, pf);
+    else run_splay<Dup, TreeBase<Dup> >(ops, out, pf);
+}
+
+static bool run_kind(const std::string& kindv, const std::vector<Op>& ops, Sink& out, int& pf) {
+    size_t c = kindv.find(':');
+    std::string kind = kindv.substr(0, c), var = c == std::string::npos ? "" : kindv.substr(c + 1);
+    if (kind == "lrumap") return var == "S" ? run_lru<MapS>(ops, out, pf) : var == "T" ? run_lru<MapT>(ops, out, pf) : run_lru<MapBase>(ops, out, pf);
+    if (kind == "lruset") return var == "S" ? run_lru<SetS>(ops, out, pf) : var == "A" ? run_lru<SetA>(ops, out, pf) : run_lru<SetBase>(ops, out, pf);
+    if (kind == "splayset") { run_splay_variant<false>(var, ops, out, pf); return true; }
+    if (kind == "splaymulti") { run_splay_variant<true>(var, ops, out, pf); return true; }
     out.word("?"); pf = -1; return true;
 }
 
-static std::vector<std::string> alphabet(const std::string& kind, int nk) {
+static std::vector<std::string> alphabet(const std::string& kindv, int nk) {
+    std::string kind = kindv.substr(0, kindv.find(':'));
     std::vector<std::string> a;
     auto with_keys = [&](const char* n) { for (int k = 0; k < nk; ++k) a.push_back(std::string(n) + "," + std::to_string(k)); };
     if (kind == "lrumap") {
